@@ -76,7 +76,14 @@ def run_property(pid, spec, tier, seed, work, t0, replay=None, no_prove=False):
     if replay:
         rp = json.load(open(replay))
         cases = rp.get("cases") or [rp["case"]]
-        impl, drvl, fails, _ = run_cases(pid, cases, work, spec.get("harness_kw"))
+        renv = None
+        zh = rp.get("zone_bytes_hex")
+        if zh:
+            # the replay carries the bytes of the zone its case names
+            zt = os.path.join(work, "replay_zones.txt")
+            gen_zone.write_table(zt, [(cases[0].split()[1], bytes.fromhex(zh))])
+            renv = {"VERIF_ZONES": zt}
+        impl, drvl, fails, _ = run_cases(pid, cases, work, spec.get("harness_kw"), env=renv)
         for c, i, d in zip(cases, impl, drvl):
             print("case :", c)
             print("impl :", i)
@@ -319,8 +326,7 @@ def run_sched(pid, spec, tier, seed, work, t0, no_prove):
         # its own, so every hidden hint was left by ANOTHER thread) must give the stateless answer
         ucases, uzones = gen_zone.gen_c14("quick" if tier == "quick" else "thorough", C.Rng(seed * 31 + 13))
         ucases = [("x" + c[1:]) for c in ucases if c.startswith("hbt ") or c.startswith("hmt ")]
-        if tier == "quick":
-            ucases = ucases[:12000]
+        ucases = ucases[:12000] if tier == "quick" else ucases[:: max(1, len(ucases) // 150000)]   # one thread per query: keep it bounded
         uzt = os.path.join(work, "uzones.txt")
         gen_zone.write_table(uzt, uzones)
         uenv = {"VERIF_ZONES": uzt}
